@@ -6,4 +6,5 @@ Definition cleanN (s : list N) : list N := clean s.
 Definition resolveN (base path : list N) : res := resolve_path base path.
 Definition find_mountN (cwd : list N) (keys : list (list N)) (path : list N) := find_mount cwd keys path.
 Definition vrunN (keys : list (list N)) (cwd : list N) (ops : list vop) := vrun keys cwd ops.
-Extraction "paths_model.ml" cleanN resolveN find_mountN vrunN.
+Definition mount_twoN (cwd : list N) (keys : list (list N)) (p1 p2 : list N) := mount_two cwd keys p1 p2.
+Extraction "paths_model.ml" cleanN resolveN find_mountN vrunN mount_twoN.
